@@ -20,6 +20,31 @@ CLAIMED = {
    technique="Coq proof by reflection: verified regexp emptiness/inclusion decision procedure on translator-regenerated ASTs; differential validation of the matcher against Go regexp"),
 }
 
+
+def _c(category, text, design_ref, note, technique):
+    return dict(category=category, text=text, design_ref=design_ref, note=NOTE_COMMON + note, technique=technique)
+
+TIE_NOTE = ("The hand-written model is tied to sanitize.go by differential runs of the implementation (built with -tags verif) against the extracted model; "
+            "its strength is bounded by the generators (distribution recorded in the evidence). x/net/html, net/url and douceur are modelled / oracles. ")
+
+CLAIMED.update({
+ "C01": _c("proof", "Theorem C01_items_partial (all token lists, all policies without AllowUnsafe): every tag the loop emits names an allowed element, comments only when allowed, "
+           "no doctype, everything else escaped input text or the AddSpace blank. Partial: the re-tokenisation of the rendered bytes is not yet a theorem; it is checked by the "
+           "implementation-side oracle (html.Tokenizer and html.ParseFragment in ten containers) on every generated case.", "DESIGN.md section 5 C01",
+           TIE_NOTE + "Tree-builder clause argued, not proved.", "Coq proof over an executable model of the token loop + differential correspondence (bounded-exhaustive token sequences) + re-parse oracle"),
+ "C05": _c("proof", "Theorems C05_tags / C05_literal_names / C05_body: for every policy value without AllowUnsafe (tables naming script/style, patterns matching them, modified skip sets included) "
+           "and every token list no script/style tag is emitted, nothing is written unescaped, and the raw-text body token after a script/style start or self-closing tag yields nothing.",
+           "DESIGN.md section 5 C05", TIE_NOTE, "Coq proof over the loop model + bounded-exhaustive correspondence + marker oracle"),
+ "C08": _c("proof", "Theorem C08_skipping_emits_nothing_partial: in the content-skipping state the loop emits nothing but the AddSpace blank (all token lists). Partial: the characterisation of "
+           "that state on well-nested documents is carried by the bounded-exhaustive loop correspondence and the marker oracle.", "DESIGN.md section 5 C08", TIE_NOTE,
+           "Coq invariant proof over the loop model + bounded-exhaustive correspondence + text-outside-hidden-elements oracle"),
+ "C15": _c("proof", "Theorems C15_agree / C15_written_bytes / C15_blank over Entry.v: the four entry points compute the same bytes for non-blank input for every well-behaved writer; blank input is returned unchanged. "
+           "Partial: independence of reader chunking holds in the model by construction (the tokenizer sees the concatenation); it is exercised on the implementation by exhaustive chunkings.",
+           "DESIGN.md section 5 C15", TIE_NOTE, "Coq proof over the entry-point model + exhaustive chunking / writer-kind differential runs + cmd binaries"),
+ "C16": _c("proof", "Theorems C16_write_failure / C16_clean_prefix / C16_read_failure / C16_read_failure_buffer for every input, policy, write index k and sink behaviour after k.",
+           "DESIGN.md section 5 C16", TIE_NOTE, "Coq proof over the write-sequence model + fault injection at every write index and reader offset"),
+})
+
 NOT_YET = {}
 
 def main():
